@@ -91,6 +91,11 @@ func VerifStubAccept(s *yamux.Session, ctx context.Context) (*yamux.Stream, erro
 		return nil, yamux.ErrSessionShutdown
 	case 5:
 		return nil, context.DeadlineExceeded
+	case 6: // a stream arrives; the harness inspects the state while the handler is "blocked"
+		if vProbe != nil {
+			vProbe()
+		}
+		return &yamux.Stream{}, nil
 	}
 	return nil, VerifErrAccept
 }
